@@ -75,7 +75,7 @@ fn single(t: &mut Tape, rec: &mut Rec<'_>) {
         rec.fail("roundtrip-vs-reference", format!("{e}\noriginal: {txt}\nprinted: {txt2}"));
         return;
     }
-    // (c) second printer: JSON-born policy rendered with to_cedar (EST printer), through the public API
+    // (c) JSON-born policy rendered with to_cedar (the AST printer applied to what the JSON converts to), through the public API
     let j = pemit::policy_json(&p);
     let printed = if p.is_template() {
         Template::from_json(Some(PolicyId::new("j")), j.clone()).map(|t| t.to_cedar()).map_err(|e| e.to_string())
@@ -98,6 +98,66 @@ fn single(t: &mut Tape, rec: &mut Rec<'_>) {
         }
         Err(e) => {
             rec.fail("generated-json-rejected", format!("{j}\n{e}"));
+        }
+    }
+    if rec.failed() {
+        return;
+    }
+    // (d) third printer: `Display` of a JSON-born policy / template prints its JSON (EST) form directly
+    let shown = if p.is_template() {
+        Template::from_json(Some(PolicyId::new("j")), j.clone()).map(|t| t.to_string()).map_err(|e| e.to_string())
+    } else {
+        Policy::from_json(Some(PolicyId::new("j")), j.clone()).map(|p| p.to_string()).map_err(|e| e.to_string())
+    };
+    // (e) a template born from text, linked: the linked policy's `Display` prints the template with the values written in
+    if p.is_template() {
+        use crate::refmodel::policy::EntRef;
+        use crate::refmodel::Uid;
+        let up = Uid { ty: "A".into(), id: "a0".into() };
+        let ur = Uid { ty: "NS::C".into(), id: "q\"uote\\".into() };
+        let needs_p = matches!(&p.principal, crate::refmodel::policy::PrC::Eq(EntRef::Slot) | crate::refmodel::policy::PrC::In(EntRef::Slot) | crate::refmodel::policy::PrC::IsIn(_, EntRef::Slot));
+        let needs_r = matches!(&p.resource, crate::refmodel::policy::PrC::Eq(EntRef::Slot) | crate::refmodel::policy::PrC::In(EntRef::Slot) | crate::refmodel::policy::PrC::IsIn(_, EntRef::Slot));
+        let mut ps = cedar_policy::PolicySet::new();
+        if let Ok(tpl) = Template::parse(Some(PolicyId::new("t")), &txt) {
+            if ps.add_template(tpl).is_ok() {
+                let mut vals = std::collections::HashMap::new();
+                if needs_p {
+                    vals.insert(cedar_policy::SlotId::principal(), bridge::euid(&up));
+                }
+                if needs_r {
+                    vals.insert(cedar_policy::SlotId::resource(), bridge::euid(&ur));
+                }
+                if ps.link(PolicyId::new("t"), PolicyId::new("l"), vals).is_ok() {
+                    let linked_txt = ps.policy(&PolicyId::new("l")).unwrap().to_string();
+                    let want = p.link(if needs_p { Some(&up) } else { None }, if needs_r { Some(&ur) } else { None });
+                    rec.label("linked-display");
+                    match parse_tpl(&linked_txt) {
+                        Ok(pl) => {
+                            if let Err(e) = bridge::template_matches(&pl, &want) {
+                                rec.fail("linked-display-structure", format!("{e}\ntemplate: {txt}\nDisplay of the link: {linked_txt}"));
+                                return;
+                            }
+                        }
+                        Err(e) => {
+                            rec.fail("printed-text-rejected:linked-display", format!("Display of a linked policy does not parse:\n{linked_txt}\n{e}\ntemplate: {txt}"));
+                            return;
+                        }
+                    }
+                }
+            }
+        }
+    }
+    if let Ok(txt4) = shown {
+        rec.render(|| format!("Display of the JSON form:\n{txt4}"));
+        match parse_tpl(&txt4) {
+            Ok(p4) => {
+                if let Err(e) = bridge::template_matches(&p4, &p) {
+                    rec.fail("json-display-structure", format!("{e}\njson: {j}\nDisplay: {txt4}"));
+                }
+            }
+            Err(e) => {
+                rec.fail("printed-text-rejected:json-display", format!("Display of an accepted JSON policy does not parse:\n{txt4}\n{e}\njson: {j}"));
+            }
         }
     }
 }
